@@ -9,6 +9,7 @@ structure DS where
   w : Nat := 1
   h : Nat := 1
   fs : Bool := false
+  depth : Nat := 8
   styles : List (Nat × Attrs) := []
   wide : Text := []
   zero : Text := []
@@ -24,7 +25,9 @@ def DS.attrsOf (d : DS) (i : Nat) : Attrs :=
   | some p => p.2
   | none => Attrs.dflt
 
-def DS.env (d : DS) : Env := ⟨d.w, d.h, d.fs, d.attrsOf⟩
+/-- the driver's terminal stores the raw attributes (`enc = id`): the grid comparison is only made for
+    cases rendered at one colour depth whose escape codes are pairwise distinct -/
+def DS.env (d : DS) : Env := ⟨d.w, d.h, d.fs, d.attrsOf, d.depth, fun _ a => a⟩
 def DS.cw (d : DS) (c : Char) : Nat :=
   if d.wide.contains c then 2 else if d.zero.contains c then 0 else 1
 
@@ -47,7 +50,7 @@ def decAttrs (fg bg fl : String) : Option Attrs := do
 def encCmd : Cmd → String
   | .write t => "W" ++ encStr t
   | .writeRaw t => "R" ++ encStr t
-  | .setAttrs a => "A" ++ encAttrs a
+  | .setAttrs a d _ => "A" ++ encAttrs a ++ s!"@{d}"
   | .resetAttrs => "A0"
   | .cursorUp n => s!"U{n}"
   | .cursorForward n => s!"F{n}"
@@ -113,6 +116,10 @@ def step (d : DS) (toks : List String) : DS × String :=
     | some w, some h, some fs =>
       ({ w := w, h := h, fs := fs, term := Term.fresh w h 0 (fun _ _ => TCell.blank) }, "ok")
     | _, _, _ => bad
+  | ["depth", k] =>
+    match decNat k with
+    | some k => ({ d with depth := k }, "ok")
+    | none => bad
   | ["size", w, h] =>
     match decNat w, decNat h with
     | some w, some h => ({ d with w := w, h := h }, "ok")
